@@ -241,13 +241,12 @@ example : closedB h0 s0 = true ∧ wfB h0 s0 = true ∧
       = some [["String", "Query", "Pet"], ["String", "Query", "Pet", "Dog"], ["String", "Query", "Pet", "Dog"]] := by decide
 
 /-- the variant in the working tree -/
-theorem current_transform_sequence_untouched_preserved (hd : PyGql.Generated.HeapCfg.currentCfg.deepClone = true)
-    (hk : PyGql.Generated.HeapCfg.currentCfg.keepAllTypes = true) (hacc : PyGql.Generated.HeapCfg.currentCfg.accumulateBusted = true)
+theorem current_transform_sequence_untouched_preserved
     (fuel : Nat) (s : Schema) (h : Heap) (hc : closedB h s = true) (hw : wfB h s = true)
     (ops : List (List Visitor)) (hv : ∀ vs, vs ∈ ops → ∀ v, v ∈ vs → NoWrap v) :
     ∃ hN rs, runAll PyGql.Generated.HeapCfg.currentCfg (2 + fuel) s ops h = some (hN, rs) ∧
       Frame h hN ∧ closedB hN s = true ∧ wfB hN s = true ∧ rs.map (·.1) = ops ∧ ∀ r, r ∈ rs → ResultIntact h s hN r := by
-  obtain ⟨⟨hN, rs⟩, e⟩ := Option.isSome_iff_exists.mp (runAll_total _ hd hk hacc fuel s ops h hc hw)
-  exact ⟨hN, rs, e, transform_sequence_untouched_preserved _ hd hk hacc fuel s h hc hw ops hv hN rs e⟩
+  obtain ⟨⟨hN, rs⟩, e⟩ := Option.isSome_iff_exists.mp (runAll_total _ cur_deepClone cur_keepAllTypes cur_accumulateBusted fuel s ops h hc hw)
+  exact ⟨hN, rs, e, transform_sequence_untouched_preserved _ cur_deepClone cur_keepAllTypes cur_accumulateBusted fuel s h hc hw ops hv hN rs e⟩
 
 end PyGql.Props.C14
